@@ -23,12 +23,17 @@ func SmartDurationString(d time.Duration) string { return SmartDurationStringEx(
 func SmartDurationStringEx(d time.Duration, frac bool) string { return shortDur(d, frac) }
 
 func shortDur(d time.Duration, frac bool) string {
-	var arr [32]byte
+	var arr [shortDurBufSize]byte
 	n := shortDurFormat(&arr, d, frac)
 	return string(arr[n:])
 }
 
-func shortDurFormat(buf *[32]byte, d time.Duration, useFrac bool) int { //nolint:revive
+// shortDurBufSize must hold the longest text, which is the compact
+// form of math.MinInt64: "-106751d23h47m16s854ms775µs808ns" (33 bytes,
+// 'µ' takes two).
+const shortDurBufSize = 40
+
+func shortDurFormat(buf *[shortDurBufSize]byte, d time.Duration, useFrac bool) int { //nolint:revive
 	// Largest time is:
 	// 2540400h10m10.000000000s
 	// 2540400h10m10s999ms999us999na
